@@ -170,7 +170,7 @@ def after_state_calls(ctx, base):
 
 
 def run(ctx):
-    return _scene.run_property(ctx, CFG, 1200, 15000, RULE, concrete, ASSUME, post=post, extra_lines=after_state_calls,
+    return _scene.run_property(ctx, CFG, 2000, 15000, RULE, concrete, ASSUME, post=post, extra_lines=after_state_calls,
                                nontrivial=lambda sr, i: len(sr.impl[i]) >= 3)
 
 
